@@ -185,4 +185,70 @@ theorem splitEq_written {k s1 s2 v : Str} (hk : 61 ∉ k) (hv : 61 ∉ v) (h1 : 
   simp only [splitEq, splitOn_prefix 61 _ [] _ h61, splitOn_none 61 _ [] h61', List.nil_append, trimPieces,
     if_true, Bool.false_eq_true, if_false, rstrip_append_blank h1 hkl, dropSpaces_blank_append h2 hvh]
 
+/-! ### options as written -/
+
+/-- how one option `k = v` is written as unquoted arguments -/
+inductive OptStyle | joined | spaced | eqRight | eqLeft      -- `k=v` | `k = v` | `k =v` | `k= v`
+  deriving DecidableEq, Repr
+
+/-- the arguments the tokeniser delivers for it -/
+def optArgs (k v : Str) : OptStyle → List Str
+  | .joined => [k ++ 61 :: v]
+  | .spaced => [k, [61], v]
+  | .eqRight => [k, 61 :: v]
+  | .eqLeft => [k ++ [61], v]
+
+/-- a key or a value: not empty, no `=`, no white space -/
+def optWord (w : Str) : Bool := !w.isEmpty && w.all (fun c => c != 61 && !Str.isSpace c)
+
+theorem optWord_facts {w : Str} (h : optWord w = true) : w ≠ [] ∧ 61 ∉ w ∧ noSpace w = true := by
+  simp only [optWord, Bool.and_eq_true, Bool.not_eq_true', List.isEmpty_eq_false_iff] at h
+  refine ⟨h.1, fun m => ?_, ?_⟩
+  · have := List.all_eq_true.mp h.2 61 m; simp at this
+  · simp only [noSpace, List.all_eq_true] at h ⊢
+    intro c hc; have := h.2 c hc; simp only [Bool.and_eq_true] at this; exact this.2
+
+theorem splitOn_kv {k v : Str} (hk : 61 ∉ k) (hv : 61 ∉ v) : splitOn 61 [] (k ++ 61 :: v) = [k, v] := by
+  rw [splitOn_prefix 61 k [] v hk, splitOn_none 61 v [] hv]; simp
+
+theorem optWords_append (a b : List Str) : optWords (a ++ b) = optWords a ++ optWords b := by
+  simp [optWords, List.flatMap_append]
+
+theorem optWords_one {k v : Str} (hk : optWord k = true) (hv : optWord v = true) (st : OptStyle) :
+    optWords (optArgs k v st) = [k, v] := by
+  obtain ⟨hk0, hk1, hk2⟩ := optWord_facts hk
+  obtain ⟨hv0, hv1, hv2⟩ := optWord_facts hv
+  have nk : k.isEmpty = false := by simpa using hk0
+  have nv : v.isEmpty = false := by simpa using hv0
+  have e61 : noSpace [61] = true := by decide
+  have ekv : noSpace (k ++ 61 :: v) = true := by
+    simp only [noSpace, List.all_append, List.all_cons, Bool.and_eq_true] at hk2 hv2 ⊢
+    exact ⟨hk2, by decide, hv2⟩
+  have e1 : noSpace (61 :: v) = true := by
+    simp only [noSpace, List.all_cons, Bool.and_eq_true] at hv2 ⊢; exact ⟨by decide, hv2⟩
+  have e2 : noSpace (k ++ [61]) = true := by
+    simp only [noSpace, List.all_append, List.all_cons, List.all_nil, Bool.and_eq_true] at hk2 ⊢; exact ⟨hk2, by decide, trivial⟩
+  have s61 : splitOn 61 [] [61] = [[], []] := by decide
+  have sv : splitOn 61 [] (61 :: v) = [[], v] := by
+    have := splitOn_kv (k := []) (v := v) (by simp) hv1; simpa using this
+  have sk : splitOn 61 [] (k ++ [61]) = [k, []] := splitOn_kv hk1 (by simp)
+  have skk : splitOn 61 [] k = [k] := by have := splitOn_none 61 k [] hk1; simpa using this
+  have svv : splitOn 61 [] v = [v] := by have := splitOn_none 61 v [] hv1; simpa using this
+  cases st <;>
+    simp [optWords, optArgs, splitEq_noSpace, ekv, hk2, hv2, e61, e1, e2, splitOn_kv hk1 hv1, s61, sv, sk, skk, svv, nk, nv]
+
+/-- **options as written.**  A `declareOptions` command whose arguments are options `k = v`, each written in any of
+the four unquoted styles, declares exactly the pairs written, in order. -/
+theorem pairUp_written : ∀ (os : List (Str × Str × OptStyle)),
+    (∀ o ∈ os, optWord o.1 = true ∧ optWord o.2.1 = true) →
+    pairUp (optWords (os.flatMap fun o => optArgs o.1 o.2.1 o.2.2)) = os.map fun o => (o.1, o.2.1) := by
+  intro os
+  induction os with
+  | nil => intro _; rfl
+  | cons o rest ih =>
+    intro h
+    obtain ⟨hk, hv⟩ := h o (by simp)
+    simp only [List.flatMap_cons, optWords_append, optWords_one hk hv, List.map_cons]
+    simp [pairUp, ih (fun x hx => h x (by simp [hx]))]
+
 end EupsModel.TableParse
